@@ -594,7 +594,7 @@ pub struct ConvApp {
 impl CaseApp for ConvApp {
     fn accepts(&self, port: u16, rq: &Request) -> bool {
         if self.unix {
-            !rq.url().starts_with("/ctl")
+            !crate::env::is_control(rq)
         } else {
             port == self.port
         }
